@@ -80,6 +80,7 @@ type sfs struct {
 
 	listStyle  int  // 0: EOF with last entries; 1: EOF on following call; 2: short batches (tape); 3: exact fill then EOF
 	eofStyle   int  // ReadAt at end: 0: (n, io.EOF); 1: (n, nil) when n>0, then (0, EOF)
+	parkAfter  bool // data calls park a second time after taking effect (a backend that is slow to return)
 	ignoreCtx  bool // handlers do not look at their request's context
 	partialErr bool // a failing ReadAt/WriteAt has moved some bytes before it fails: (n>0, err), as io.ReaderAt/io.WriterAt allow
 	shortRead  bool
@@ -151,6 +152,13 @@ func (fs *sfs) reqCall(method string, r *Request) sfCall {
 
 func (fs *sfs) gate(cmd bool, key string) {
 	if (cmd && fs.parkCmd) || (!cmd && fs.parkData) {
+		fs.sim.park("b:"+key, nil)
+	}
+}
+
+// gateAfter parks a data call after it has taken effect, before it returns to the package (parkAfter runs only).
+func (fs *sfs) gateAfter(key string) {
+	if fs.parkData && fs.parkAfter {
 		fs.sim.park("b:"+key, nil)
 	}
 }
@@ -231,9 +239,16 @@ func (o *sfObj) ctxErr() error {
 }
 
 func (o *sfObj) readAt(b []byte, off int64) (int, error) {
-	fs := o.fs
 	o.enter()
 	defer o.leave()
+	n, err := o.readAt1(b, off)
+	// (parkAfter) the call has taken effect but is slow to return: the scheduler decides when the package goes on
+	o.fs.gateAfter(fmt.Sprintf("readat:%03d:%08d:%06d:ret", o.id, off, len(b)))
+	return n, err
+}
+
+func (o *sfObj) readAt1(b []byte, off int64) (int, error) {
+	fs := o.fs
 	fs.gate(false, fmt.Sprintf("readat:%03d:%08d:%06d", o.id, off, len(b)))
 	if err := o.ctxErr(); err != nil {
 		fs.record(sfCall{Method: "ReadAt", Obj: o.id, Off: off, N: len(b), Filepath: o.path})
@@ -277,9 +292,15 @@ func (o *sfObj) readAt(b []byte, off int64) (int, error) {
 }
 
 func (o *sfObj) writeAt(b []byte, off int64) (int, error) {
-	fs := o.fs
 	o.enter()
 	defer o.leave()
+	n, err := o.writeAt1(b, off)
+	o.fs.gateAfter(fmt.Sprintf("writeat:%03d:%08d:%06d:ret", o.id, off, len(b)))
+	return n, err
+}
+
+func (o *sfObj) writeAt1(b []byte, off int64) (int, error) {
+	fs := o.fs
 	fs.gate(false, fmt.Sprintf("writeat:%03d:%08d:%06d", o.id, off, len(b)))
 	if err := o.ctxErr(); err != nil {
 		fs.record(sfCall{Method: "WriteAt", Obj: o.id, Off: off, N: len(b), Filepath: o.path})
